@@ -52,18 +52,66 @@ TS_STRINGLY = [
 ]
 TS_LOCAL = ["function scale{n}(x: number): number {{\n  return x * 4242;\n}}\n", "function show{n}(x: number): void {{\n  console.log(x);\n}}\n"]
 
-KINDS_PY = {"B": PY_BODIES, "C": PY_CONSTS, "S": PY_STRINGLY, "L": PY_LOCAL}
-KINDS_TS = {"B": TS_BODIES, "C": TS_CONSTS, "S": TS_STRINGLY, "L": TS_LOCAL}
+# snippets that INTERACT BY NAME across files: the same identifier is bound to different things in different files
+# (module aliases, accumulators that are strings here and numbers there, same class / function names).  A rule that
+# judges files one at a time must not carry what it learnt about a name from one file into the next.
+PY_NAMES = [
+    "import re as rx\n\n\ndef first_{n}(text):\n    return rx.match(r\"\\w+\", text)\n",
+    "import regex as rx\n\n\ndef scan_{n}(lines):\n    out = []\n    for line in lines:\n        out.append(rx.match(r\"\\d+\", line))\n    return out\n",
+    "def join_{n}(items):\n    result = \"\"\n    for item in items:\n        result += str(item)\n    return result\n",
+    "def count_{n}(items):\n    result = 0\n    for item in items:\n        result += len(item)\n    return result\n",
+    "import re as codec\n\n\ndef find_{n}(rows):\n    return [codec.search(\"x\", r) for r in rows]\n",
+    "import json as codec\n\n\ndef dump_{n}(rows):\n    out = []\n    for row in rows:\n        out.append(codec.sub(\"a\", \"b\", row))\n    return out\n",
+    "from re import compile as build\n\n\ndef pat_{n}():\n    return build(\"a+\")\n",
+    "def build(x):\n    return x\n\n\ndef each_{n}(rows):\n    out = []\n    for row in rows:\n        out.append(build(row))\n    return out\n",
+    "class Handler:\n    def name(self):\n        return \"handler\"\n\n    def kind(self):\n        return \"plain\"\n",
+    "class Handler:\n    def __init__(self):\n        self.count = 0\n\n    def name(self):\n        self.count += 1\n        return self.count\n",
+    "def label_{n}(parts):\n    text = []\n    for part in parts:\n        text += [part]\n    return text\n",
+    "def title_{n}(parts):\n    text = \"\"\n    for part in parts:\n        text = text + part\n    return text\n",
+]
+TS_NAMES = [
+    "export function sizeOfNames{n}(names: string[]): string {{\n  let label = \"\";\n  let width = names.length;\n  for (const name of names) {{\n    width += name.length;\n  }}\n  return label + width;\n}}\n",
+    "export function sizeOfTags{n}(tags: string[]): string {{\n  let width = \"\";\n  let label = tags.length;\n  for (const tag of tags) {{\n    label += tag.length;\n  }}\n  return width + label;\n}}\n",
+    "export function total{n}(xs: number[]): number {{\n  let acc = 0;\n  for (const x of xs) {{\n    acc += x;\n  }}\n  return acc;\n}}\n",
+    "export function text{n}(xs: string[]): string {{\n  let acc = \"\";\n  for (const x of xs) {{\n    acc += x;\n  }}\n  return acc;\n}}\n",
+    "export function rows{n}(xs: string[]): number {{\n  let out = 0;\n  while (out < xs.length) {{\n    out += 1;\n  }}\n  return out;\n}}\n",
+    "export function cells{n}(xs: string[]): string {{\n  let out = '';\n  for (const x of xs) {{\n    out = out + x;\n  }}\n  return out;\n}}\n",
+]
+
+KINDS_PY = {"B": PY_BODIES, "C": PY_CONSTS, "S": PY_STRINGLY, "L": PY_LOCAL, "N": PY_NAMES}
+KINDS_TS = {"B": TS_BODIES, "C": TS_CONSTS, "S": TS_STRINGLY, "L": TS_LOCAL, "N": TS_NAMES}
+
+_DOC_EXAMPLES: dict | None = None
+
+
+def doc_examples() -> dict:
+    """documented examples of every linter (docs/*-linter.md via translator/docs2cases.py, read-only), by language;
+    examples carrying suppression directives are left out (directive caches are outside the model)"""
+    global _DOC_EXAMPLES
+    if _DOC_EXAMPLES is None:
+        out = {"py": [], "ts": [], "rs": []}
+        try:
+            from translator import docs2cases
+            for e in docs2cases.extract()["examples"]:
+                code = e["code"]
+                lang = {"js": "ts"}.get(e["lang"], e["lang"])
+                if lang in out and "thailint:" not in code and "dry:" not in code and "__future__" not in code and len(code) < 4000:
+                    out[lang].append([e["linter"], code if code.endswith("\n") else code + "\n"])
+        except Exception:  # noqa: BLE001  (the hand-written snippets remain)
+            pass
+        _DOC_EXAMPLES = out
+    return _DOC_EXAMPLES
 
 PATH_POOL_PY = ["a.py", "b.py", "y.py", "pkg/c.py", "pkg/d.py", "pkg/y.py", "pkg/sub/e.py", "pkg/sub/k.py", "lib/p.py", "lib/x.py"]
 PATH_POOL_TS = ["web/f.ts", "web/g.ts", "web/ui/h.ts", "web/w.js"]
+PATH_POOL_RS = ["rs/m.rs", "rs/n.rs", "rs/util/o.rs"]
 PATH_POOL_SKIP = ["build/x.py", "gen/y.py", "pkg/z.pyc", "node_modules/dep/i.js", "gen/deep/v.py"]
 CONFIG_NAME = ".thailint.yaml"
 IGNORE_NAME = ".thailintignore"
 
 
 def lang_of(path: str) -> str:
-    return "ts" if path.endswith((".ts", ".js")) else "py"
+    return "ts" if path.endswith((".ts", ".js")) else "rs" if path.endswith(".rs") else "py"
 
 
 def render_content(path: str, items: list) -> str:
@@ -77,7 +125,9 @@ def render_content(path: str, items: list) -> str:
     for k, i, tag in consts:
         out.append(kinds[k][i % len(kinds[k])])
     for k, i, tag in rest:
-        if k in ("BI", "BN"):
+        if k == "X":
+            out.append("\n" + i)      # raw text (a documented example), carried in the case itself
+        elif k in ("BI", "BN"):
             # a duplicate-able body under an inline DRY suppression comment (Python only; `#` comments are not code)
             out.append("\n" + ("# dry: ignore-block\n" if k == "BI" else "# dry: ignore-next\n") + kinds["B"][i % len(kinds["B"])].format(n=tag))
         elif k == "U":
@@ -87,13 +137,31 @@ def render_content(path: str, items: list) -> str:
     return "".join(out)
 
 
+TOGGLE_DIRS = ("lib/", "gen/")     # directories that histories add to / remove from .thailintignore: per-file content only
+IGNORE_POOL = [[], ["gen/"], ["lib/"], ["gen/", "lib/"], ["lib/x.py"], ["gen/", "lib/p.py"]]
+
+
 def gen_items(r, path: str, tag: str, rich: float = 0.7) -> list:
-    kinds = KINDS_TS if lang_of(path) == "ts" else KINDS_PY
+    lang = lang_of(path)
+    if path.startswith(TOGGLE_DIRS) and lang == "py":
+        # per-file findings only, and no block another file could duplicate: the cross-file reports filter by the
+        # ignore patterns current at finalize time, which the measured report tables do not carry
+        items = [["L", i, tag] for i in (0, 1) if r.random() < 0.7]
+        items.append(["U", 0, tag + str(r.randrange(1000))])
+        r.shuffle(items)
+        return items
+    docs = doc_examples()[lang]
+    if lang == "rs":
+        items = [["X", r.choice(docs)[1], tag] for _ in range(r.randint(1, 2))] if docs else []
+        return items or [["X", "fn only_" + tag + "() -> i32 {\n    1\n}\n", tag]]
+    kinds = KINDS_TS if lang == "ts" else KINDS_PY
     items = []
-    for k in ("C", "B", "S", "L"):
+    if docs and r.random() < 0.45:
+        items.append(["X", r.choice(docs)[1], tag])
+    for k in ("C", "B", "S", "L", "N"):
         pool = kinds[k]
         for i in range(len(pool)):
-            p = {"C": 0.45, "B": 0.5, "S": 0.4, "L": 0.25}[k] * (rich / 0.7)
+            p = {"C": 0.45, "B": 0.5, "S": 0.4, "L": 0.25, "N": 0.22}[k] * (rich / 0.7)
             if r.random() < p:
                 items.append([k, i, tag])
                 if k == "B" and r.random() < 0.2:
@@ -114,7 +182,10 @@ def gen_project(r, n_files=(3, 8), with_skips=True) -> dict:
     paths = pool[:max(2, n - 2)]
     ts = list(PATH_POOL_TS)
     r.shuffle(ts)
-    paths += ts[:r.choice([0, 0, 1, 2, 2])]
+    paths += ts[:r.choice([0, 1, 2, 2, 3])]
+    rs = list(PATH_POOL_RS)
+    r.shuffle(rs)
+    paths += rs[:r.choice([0, 0, 1, 2])]
     if with_skips:
         sk = list(PATH_POOL_SKIP)
         r.shuffle(sk)
@@ -125,9 +196,9 @@ def gen_project(r, n_files=(3, 8), with_skips=True) -> dict:
     if r.random() < 0.15:
         config["dry"]["detect_duplicate_constants"] = False
     ignore = ["gen/"] if any(p.startswith("gen/") for p in paths) or r.random() < 0.3 else []
-    spare = [p for p in PATH_POOL_PY + PATH_POOL_TS if p not in paths]
+    spare = [p for p in PATH_POOL_PY + PATH_POOL_TS + PATH_POOL_RS if p not in paths]
     r.shuffle(spare)
-    universe = sorted(set(paths + spare[:2] + [CONFIG_NAME] + ([IGNORE_NAME] if ignore else [])))
+    universe = sorted(set(paths + spare[:2] + [CONFIG_NAME, IGNORE_NAME]))
     contents: list = []   # content id -> [path, items] ; text rendered on demand
 
     def new_content(path, items):
@@ -140,7 +211,7 @@ def gen_project(r, n_files=(3, 8), with_skips=True) -> dict:
         fs0[universe.index(p)] = new_content(p, gen_items(r, p, tag))
     fs0[universe.index(CONFIG_NAME)] = new_content(CONFIG_NAME, ["CONFIG"])
     if ignore:
-        fs0[universe.index(IGNORE_NAME)] = new_content(IGNORE_NAME, ["IGNORE"])
+        fs0[universe.index(IGNORE_NAME)] = new_content(IGNORE_NAME, ["IGNORE", ignore])
     dirs = sorted({""} | {"/".join(p.split("/")[:k]) for p in universe for k in range(1, p.count("/") + 1)})
     return {"paths": universe, "dirs": dirs, "config": config, "ignore": ignore, "contents": contents,
             "fs0": {str(k): v for k, v in fs0.items()}}
@@ -151,8 +222,8 @@ def content_text(proj: dict, cid: int) -> str:
     if items == ["CONFIG"]:
         import yaml
         return yaml.safe_dump(proj["config"], sort_keys=True)
-    if items == ["IGNORE"]:
-        return "".join(p + "\n" for p in proj["ignore"])
+    if items and items[0] == "IGNORE":
+        return "".join(p + "\n" for p in (items[1] if len(items) > 1 else proj["ignore"]))
     return render_content(path, items)
 
 
@@ -240,6 +311,7 @@ def os_listing(root: Path, d: str, proj: dict) -> list[int]:
 
 
 def fresh_linter(root: Path):
+    """a Linter as a fresh process would build it: the process-wide ignore-parser singleton is dropped first"""
     ensure_repo_on_path()
     try:
         from src.linter_config.ignore import clear_ignore_parser_cache
@@ -250,20 +322,66 @@ def fresh_linter(root: Path):
     return Linter(config_file=root / CONFIG_NAME, project_root=root)
 
 
-def path_flags(root: Path, proj: dict) -> tuple[list[int], list[int]]:
-    """hard-excluded and repo-ignored path ids, asked from the implementation's own predicates (C14 is about their
-    meaning; here they are parameters of the model)"""
+def same_process_linter(root: Path):
+    """a Linter built by a long-lived process that already built others: nothing is cleared"""
+    ensure_repo_on_path()
+    from src.api import Linter
+    return Linter(config_file=root / CONFIG_NAME, project_root=root)
+
+
+class ProcessStateGuard:
+    """Baseline / measurement objects are built 'as in a fresh process' (fresh_linter clears the ignore-parser
+    singleton).  The long-lived object under test must not notice: the module-level singleton of
+    src.linter_config.ignore is saved on entry and put back on exit (harness-side; looked up defensively)."""
+
+    NAMES = ("_CACHED_PARSER", "_CACHED_PROJECT_ROOT")
+
+    def __enter__(self):
+        self.mod, self.saved = None, {}
+        try:
+            ensure_repo_on_path()
+            import src.linter_config.ignore as ig
+            self.mod = ig
+            self.saved = {n: getattr(ig, n) for n in self.NAMES if hasattr(ig, n)}
+        except ImportError:
+            pass
+        return self
+
+    def __exit__(self, *a):
+        if self.mod is not None:
+            for n, v in self.saved.items():
+                setattr(self.mod, n, v)
+        return False
+
+
+def path_flags(root: Path, proj: dict) -> tuple[list[int], list]:
+    """hard-excluded path ids, and for every version of the ignore file (key 0: no file, cid + 1: that content) the
+    path ids its patterns match - asked from the implementation's own predicates on fresh parsers (C14 is about their
+    meaning; here they are parameters of the model).  The ignore file on disk is put back afterwards."""
     ensure_repo_on_path()
     from src.orchestrator import core
-    lin = fresh_linter(root)
-    hard, ign = [], []
-    for i, p in enumerate(proj["paths"]):
-        f = root / p
-        if core._is_hardcoded_excluded(f):
-            hard.append(i)
-        elif lin.orchestrator.ignore_parser.is_ignored(f):
-            ign.append(i)
-    return hard, ign
+    hard = [i for i, p in enumerate(proj["paths"]) if core._is_hardcoded_excluded(root / p)]
+    ig_file = root / IGNORE_NAME
+    before = ig_file.read_text() if ig_file.exists() else None
+    versions = [None] + [cid for cid, (p, _items) in enumerate(proj["contents"]) if p == IGNORE_NAME]
+    table = []
+    with ProcessStateGuard():
+        for cid in versions:
+            if cid is None:
+                if ig_file.exists():
+                    ig_file.unlink()
+            else:
+                ig_file.write_text(content_text(proj, cid))
+            lin = fresh_linter(root)
+            table.append([0 if cid is None else cid + 1,
+                          [i for i, p in enumerate(proj["paths"]) if i not in hard and lin.orchestrator.ignore_parser.is_ignored(root / p)]])
+            del lin
+        if before is None:
+            if ig_file.exists():
+                ig_file.unlink()
+        else:
+            ig_file.write_text(before)
+    return hard, table
 
 
 def cross_rules(orch):
@@ -355,6 +473,65 @@ def measure_report(root: Path, proj: dict, kind: int, evidence: list[tuple[int, 
     return out
 
 
+# ------------------------------------------------------------------ fallback model (recorded generated layer)
+MODEL_FILES = ["Lib/Base.v", "Lib/GenTypes.v", "Gen/OrchHistGen.v", "Model/OrchHist.v", "Model/OrchHistRun.v", "Actual/OrchHistActual.v"]
+
+
+def fallback_theories(workdir: Path) -> Path | None:
+    """When the generated layer no longer builds (a source idiom changed shape; the obligations are already recorded as
+    broken) the SEARCH for a concrete failing input still needs an executable model: compile a scratch copy of the model
+    against the last recorded generated layer (coq/Gen.expected/OrchHistGen.v.txt).  Never used when the real layer builds."""
+    import shutil
+    import subprocess
+    snap = coq.COQ / "Gen.expected" / "OrchHistGen.v.txt"
+    if not snap.exists():
+        return None
+    th = workdir / "theories"
+    for rel in MODEL_FILES:
+        dst = th / rel
+        dst.parent.mkdir(parents=True, exist_ok=True)
+        shutil.copy(snap if rel == "Gen/OrchHistGen.v" else coq.TH / rel, dst)
+    for rel in MODEL_FILES:
+        p = subprocess.run(["timeout", "300", "coqc", "-Q", str(th), "TL", "-w", "-notation-overridden", str(th / rel)],
+                           capture_output=True, text=True, cwd=str(th))
+        if p.returncode != 0:
+            return None
+    return th
+
+
+def eval_shards(th: Path | None, workdir: Path, header: str, shards: list) -> list:
+    if th is None:
+        return coq.eval_shards(workdir, header, shards)
+    import subprocess
+    from concurrent.futures import ThreadPoolExecutor
+    workdir.mkdir(parents=True, exist_ok=True)
+    paths = []
+    for i, body in enumerate(shards):
+        p = workdir / f"cases_{i}.v"
+        p.write_text(header + "\n" + body + "\n")
+        paths.append(p)
+
+    def one(p):
+        r = subprocess.run(["timeout", "600", "coqc", "-Q", str(th), "TL", "-w", "-notation-overridden,-abstract-large-number", str(p)],
+                           capture_output=True, text=True, cwd=str(p.parent))
+        if r.returncode != 0:
+            raise RuntimeError(f"coqc failed on {p.name}: {r.stderr[-800:]}")
+        return coq.parse_nat_lists(r.stdout)
+    with ThreadPoolExecutor(max_workers=8) as ex:
+        return list(ex.map(one, paths))
+
+
+def model_theories(chk, workdir: Path):
+    """None when the real model built; otherwise the fallback theories directory (or False when there is none)"""
+    if "theories/Model/OrchHistRun.v" in chk.build_result.compiled:
+        return None
+    th = fallback_theories(workdir / "fallback")
+    chk.notes.append("the generated layer / model no longer builds; the search for a failing input evaluated the model against the last "
+                     "recorded generated layer coq/Gen.expected/OrchHistGen.v.txt" if th else
+                     "the generated layer / model no longer builds and no recorded layer is available: cases are judged by the plain differential oracle only")
+    return th if th else False
+
+
 # ------------------------------------------------------------------ Coq rendering
 def coq_nat_list(xs) -> str:
     return "[" + "; ".join(str(int(x)) for x in xs) + "]"
@@ -386,6 +563,8 @@ def coq_op(op: list) -> str:
         return f"Delete {op[1]}"
     if k == "Add":
         return f"Add {op[1]} {op[2]}"
+    if k == "NewLinter":
+        return "NewLinter"
     raise ValueError(k)
 
 
@@ -395,6 +574,10 @@ def canon_op(op: list) -> list:
     if op[0] in ("LintDir", "ApiDir"):
         return [op[0], op[1], sorted(op[2])]
     return op
+
+
+def coq_ign(table) -> str:
+    return "[" + "; ".join(f"({k}, {coq_nat_list(l)})" for k, l in table) + "]"
 
 
 def coq_dirs(proj: dict) -> str:
